@@ -386,7 +386,7 @@ def check_case(case: dict[str, Any], col: common.Collector) -> None:
         except Exception as e:  # noqa: BLE001  -- construction failures are C01/C03's
             col.histo("skipped", f"build:{type(e).__name__}")
             continue
-        has_dups = reflect.duplicate_groups(g) > 0
+        has_dups = reflect.duplicate_groups(g) > 0 or reflect.conflated_groups(g) > 0
         try:
             base = evaluate(g, env)
         except Exception as e:  # noqa: BLE001
